@@ -22,7 +22,7 @@ var propPkgs = map[string][]string{
 	"C09": {"pkg/query/logical/measure", "pkg/query/executor", "pkg/query/logical/trace", "pkg/iter", "|", "banyand/internal/sidx"},
 	"C08": {"pkg/filter", "pkg/encoding", "pkg/encoding/vararray", "|", "banyand/measure", "|", "banyand/stream", "|", "banyand/internal/sidx"},
 	"C05": {"banyand/internal/snapshot", "|", "banyand/measure", "|", "banyand/stream", "|", "banyand/trace"},
-	"C19": {"banyand/internal/storage", "pkg/timestamp", "|", "banyand/measure", "|", "banyand/stream", "|", "banyand/trace", "|", "pkg/fs"},
+	"C19": {"banyand/internal/storage", "pkg/timestamp", "|", "banyand/measure", "|", "banyand/stream", "|", "banyand/trace", "|", "pkg/fs", "|", "banyand/backup"},
 	"C16": {"pkg/node", "pkg/partition", "pkg/convert"},
 	"C10": {"pkg/query/aggregation"},
 	"C13": {"pkg/pipeline/sdk", "|", "banyand/trace", "|", "banyand/internal/sidx"},
